@@ -51,6 +51,8 @@ def rank_activities(draw, rank: int, epoch: int, weights=(5, 3, 2, 1), max_n: in
     n = draw(st.integers(min_n, max_n))
     nstreams = draw(st.integers(1, 4))
     streams = STREAM_IDS[:nstreams]
+    if draw(st.sampled_from([False, False, False, False, True])):
+        streams = [0] + streams[1:]  # the legacy default stream: id 0 is a stream like any other (only -1 means "host")
     anchors = draw(st.lists(st.integers(0, 40), min_size=2, max_size=6, unique=True))
     point = st.one_of(st.sampled_from(anchors), st.sampled_from(anchors), st.integers(0, 45))
     events: List[Dict[str, Any]] = []
@@ -100,6 +102,8 @@ def interval_case(draw, weights=(5, 3, 2, 1), max_ranks: int = 3, max_n: int = 1
 
     case = {"ranks": ranks, "fmt": draw(st.sampled_from(["json", "gz"])), "mp": draw(st.integers(0, 5)) == 0,
             "prelude": draw(prelude_strategy())}
+    if any(isinstance(e.get("args"), dict) and e["args"].get("stream") == 0 for rd in ranks for e in rd["events"]):
+        case["stream_0"] = True
     if unrounded and draw(st.sampled_from([False, False, False, True])):
         from hv.gen.files import scale_to_sub_microsecond
 
